@@ -1,5 +1,6 @@
 import Naga.Model.Bitcode
 import Naga.Model.Container
+import Naga.Model.Psv
 /-
 C18 — whole-output validator: every structural claim of the property as a decidable check on the
 bytes returned by `dxil.Compile`.  Core Lean only.
@@ -44,7 +45,12 @@ def check (kind major minorReq : Nat) (bypass : Bool) (bs : List Nat) : Option S
               then some "bitcode: record at top level"
               else if !(items.any (fun i => match i with | .block 8 _ _ => true | _ => false))
               then some "bitcode: no MODULE_BLOCK"
-              else none
+              else
+                -- pipeline-state validation part: must walk to exactly its end by its own counts
+                match findPart Psv.ccPSV0 parts with
+                | [] => none
+                | [pv] => Psv.walk pv.data
+                | _ => some "container: more than one PSV0 part"
       | _, _, _, _, _, _ => some "dxil: part shorter than program header"
     | _, _ => some "container: need exactly one DXIL and one HASH part"
 
